@@ -8,8 +8,10 @@ open Catch Py.Gen
 
     kind  fn | with | awith | gen | coro | agen
     cfgs  `;`-joined, innermost first;  cfg = M:X:R:L:D:O   (M, X bit strings indexed by class,
-          R 0/1, L level no, D default, O = n | k | r<cls>.<id>)
-    env   <probes>@<bits>:<cls>.<id>    probes = `-` or `,`-joined  cfg~(r<v> | e<cls>.<id>)
+          R 0/1, L level no, D default, O = n | k | r<cls>.<id> | q<call>!<call>…[$<cls>.<id>] with
+          call = (f|w)=M^X^R^L^D^O'=(r<v> | e<cls>.<id>): catch()-protected calls made by the callback)
+    env   <probes>@<bits>:<cls>.<id>@<minlevel>    probes = `-` or `,`-joined  cfg~(r<v> | e<cls>.<id>);
+          minlevel = least level a handler accepts (no handler: 1000000)
     automaton   states `/`-joined, actions `,`-joined (0 = on send, 1+c = on throw of class c);
           action = y<v>_<next> | Y_<next> (echo) | r<v> | e<cls>.<id> | x (re-raise the injected one)
     ops   `-` or `,`-joined  s<v> | t<cls>.<id> | c
@@ -25,43 +27,89 @@ def parseExc (s : String) : Option Exc :=
     | _, _ => none
   | _ => none
 
-def parseCfg (s : String) : Option Cfg :=
-  match s.splitOn ":" with
-  | [m, x, r, l, d, o] =>
-    match l.toNat?, d.toNat? with
-    | some l, some d =>
-      let onerr : Option (Option (Exc → Option Exc)) :=
-        if o == "n" then some none
-        else if o == "k" then some (some (fun _ => none))
-        else if o.startsWith "r" then (parseExc (o.drop 1).toString).map (fun x => some (fun _ => some x))
-        else none
-      onerr.map fun oe =>
-        { isMatch := fun e => bit m e.cls, excluded := fun e => bit x e.cls, reraise := r == "1",
-          level := l, default := d, onerror := oe }
-    | _, _ => none
-  | _ => none
+abbrev OnErr := Exc → G → Option Exc × G
 
 def parseCallRes (s : String) : Option CallRes :=
   if s.startsWith "r" then (s.drop 1).toString.toNat?.map CallRes.ret
   else if s.startsWith "e" then (parseExc (s.drop 1).toString).map CallRes.raise
   else none
 
+/-- onerror that calls nothing: `n` (None), `k` (returns), `r<cls>.<id>` (raises) -/
+def parseSimpleOnerror (o : String) : Option (Option OnErr) :=
+  if o == "n" then some none
+  else if o == "k" then some (some (fun _ g => (none, g)))
+  else if o.startsWith "r" then (parseExc (o.drop 1).toString).map (fun x => some (fun _ g => (some x, g)))
+  else none
+
+def parseCfgWith (sep : String) (onerr : String → Option (Option OnErr)) (s : String) : Option Cfg :=
+  match s.splitOn sep with
+  | [m, x, r, l, d, o] =>
+    match l.toNat?, d.toNat?, onerr o with
+    | some l, some d, some oe =>
+      some { isMatch := fun e => bit m e.cls, excluded := fun e => bit x e.cls, reraise := r == "1",
+             level := l, default := d, onerror := oe }
+    | _, _, _ => none
+  | _ => none
+
 def parseProbe (s : String) : Option Probe :=
   match s.splitOn "~" with
-  | [c, o] => match parseCfg c, parseCallRes o with
+  | [c, o] => match parseCfgWith ":" parseSimpleOnerror c, parseCallRes o with
     | some c, some o => some ⟨c, o⟩
     | _, _ => none
   | _ => none
 
 def parseEnv (s : String) : Option Env :=
   match s.splitOn "@" with
-  | [ps, lr] =>
+  | [ps, lr, ml] =>
     let probes := if ps == "-" then some [] else (ps.splitOn ",").mapM parseProbe
-    match probes, lr.splitOn ":" with
-    | some probes, [bits, x] =>
-      (parseExc x).map fun x => { probes := probes, logRaises := fun e => if bit bits e.cls then some x else none }
+    match probes, lr.splitOn ":", ml.toNat? with
+    | some probes, [bits, x], some ml =>
+      (parseExc x).map fun x =>
+        { probes := probes, logRaises := fun e => if bit bits e.cls then some x else none, minLevel := ml }
+    | _, _, _ => none
+  | _ => none
+
+/-- one catch()-protected call made by an onerror callback: `f=<cfg with ^>=<out>` (decorated
+    function) or `w=…` (`with` block inside a helper function) -/
+structure NestedCall where
+  isWith : Bool
+  cfg : Cfg
+  out : CallRes
+
+def parseNested (s : String) : Option NestedCall :=
+  match s.splitOn "=" with
+  | [form, c, o] =>
+    match parseCfgWith "^" parseSimpleOnerror c, parseCallRes o with
+    | some c, some o => if form == "f" then some ⟨false, c, o⟩ else if form == "w" then some ⟨true, c, o⟩ else none
     | _, _ => none
   | _ => none
+
+/-- the callback: run the calls in order through THEIR catchers, report each result (`probe`
+    event); a call whose exception is not suppressed lets it escape the callback; finally raise
+    `final` if given.  Same reading as `harness/c16.py: onerror_cb`. -/
+def runNested (env : Env) (final : Option Exc) : List NestedCall → G → Option Exc × G
+  | [], g => (final, g)
+  | c :: cs, g =>
+    let r := if c.isWith then withBlock (Catch.exit env) c.cfg (fun g => (c.out, g)) g
+             else callWrapped (Catch.exit env) c.cfg (fun g => (c.out, g)) g
+    match r with
+    | (.raise x, g') => (some x, g'.push (.probe (.raise x)))
+    | (.ret v, g') => runNested env final cs (g'.push (.probe (.ret v)))
+
+def parseOnerror (env : Env) (o : String) : Option (Option OnErr) :=
+  if o.startsWith "q" then
+    let body := (o.drop 1).toString
+    let (callsS, final) : String × Option (Option Exc) :=
+      match body.splitOn "$" with
+      | [c] => (c, some none)
+      | [c, x] => (c, (parseExc x).map some)
+      | _ => (body, none)
+    match final, (callsS.splitOn "!").mapM parseNested with
+    | some final, some calls => some (some (fun _ g => runNested env final calls g))
+    | _, _ => none
+  else parseSimpleOnerror o
+
+def parseCfg (env : Env) (s : String) : Option Cfg := parseCfgWith ":" (parseOnerror env) s
 
 inductive Action where
   | yieldC (v next : Nat) | echo (next : Nat) | ret (v : Nat) | raiseNew (e : Exc) | reraise
@@ -140,8 +188,11 @@ def answer (w : List String) (g : G) (u : List String) : String :=
 def step (line : String) : String :=
   match line.splitOn " " with
   | [kind, cfgs, env, auto, ops] =>
-    match (cfgs.splitOn ";").mapM parseCfg, parseEnv env, parseTable auto, parseOps ops with
-    | some cfgs, some env, some tbl, some ops =>
+    match parseEnv env with
+    | none => "bad-op"
+    | some env =>
+    match (cfgs.splitOn ";").mapM (parseCfg env), parseTable auto, parseOps ops with
+    | some cfgs, some tbl, some ops =>
       let a := tableAuto tbl
       if kind == "fn" || kind == "with" || kind == "awith" then
         let body : G → CallRes × G := fun g =>
@@ -172,7 +223,7 @@ def step (line : String) : String :=
           | (rs, _, g), (us, _, _) => answer (rs.map showARes) g (us.map showARes)
         | [] => "bad-op"
       else "bad-op"
-    | _, _, _, _ => "bad-op"
+    | _, _, _ => "bad-op"
   | _ => "bad-op"
 
 def main : IO Unit := driverLoop step
